@@ -325,6 +325,9 @@ func runFuzz(t *simrt.Tape, keep bool) simrt.Outcome {
 		data, foreignSeqs, origin = foreignGobDoc(t)
 		kind, parser = "results-gob", []string{"gob", "auto"}[t.Choose(2)]
 		r.stats["fault.foreign-gob-type-definitions"]++
+		if strings.Contains(origin, "lies") {
+			r.stats["fault.gob-map-count-that-lies"]++
+		}
 		if t.Prob(1, 3) {
 			for k := 1 + t.Choose(3); k > 0 && len(data) > 0; k-- {
 				data[t.Choose(len(data))] ^= byte(1 << t.Choose(8))
